@@ -258,3 +258,7 @@ T('C04', 'loss-grad-via-dot', [(INF, "                    grad = c*(Q.T @ diff)"
 T('C04', 'loss-sum-of-squares', [(INF, "                    loss += 0.5*(diff @ diff)", "                    loss += 0.5*np.sum(diff**2)")])
 T('C04', 'lip-term-regrouped', [(INF, "                    eigs[cl] += eig * n / p / noise**2", "                    eigs[cl] += (eig / noise**2) * (n / p)")])
 T('C04', 'both-sorted-via-self-domain', [(INF, "            for cl in sorted(cliques, key=model.domain.size):", "            for cl in sorted(cliques, key=self.domain.size):")])
+K('C18', 'li-grad-drops-c', [(LI, "                    grad = c*(Q.T @ diff)", "                    grad = Q.T @ diff")], 'gradient-form')
+K('C18', 'li-setup-no-break', [(LI, "                    self.groups[cl].append(m)\n                    break", "                    self.groups[cl].append(m)")], 'exactly-once')
+K('C19', 'pi-loss-grad-inconsistent', [(PI, "            diff = c*(Q @ x - y)", "            diff = Q @ x - y"), (PI, "                loss += 0.5*(diff @ diff)", "                loss += 0.5*c*(diff @ diff)")], None)
+K('C19', 'pi-weight-grad-wrong-clique', [(PI, "                idx = est.project(cl).df.values", "                idx = est.df.values[:, :len(cl)]")], 'gradient-form')
